@@ -13,6 +13,8 @@ func registry() []PropSpec {
 			ID: "C20",
 			Quick: []HarnessSpec{
 				{Pkg: pkgCompression, Func: "H20b_q", Unwind: 12, Note: "zstd decompressor wrapper: every history of 4 operations from {Reset(input 1), Reset(input 2), Read, Close} on one pooled instance"},
+				{Pkg: pkgCompression, Func: "H20d_q", Unwind: 12, Only: []string{"compress/zlib.NewReader=vModelZlibNewReader"}, Note: "pooled deflate decompressor: every history of 4 operations from {Reset(valid 1), Reset(valid 2), Reset(corrupt header), Reset(truncated body), Read, Close}; zlib reader is a stub with zlib's sticky error"},
+				{Pkg: pkgTracer, Func: "H20n_q", Unwind: 12, Only: []string{"connectrpc.com/conformance/internal/compression.GetDecompressor=vModelGetDecompressorTag"}, Note: "tracer.GetDecompressor for 10 encoding names (the 6 supported ones, empty, two in other letter case, one unknown)"},
 			},
 			Stubs: []string{"the zstd library decoder is a contract stub (attached input, closed flag); natively the real klauspost/zstd runs on real zstd streams"},
 			Out:   []string{"the round trip itself and behaviour after malformed input for all six algorithms (loops of third-party compression code: the family's textbook weak target)", "the name <-> enum mapping across packages (constructors of third-party writers are not encodable)"},
@@ -90,6 +92,8 @@ func registry() []PropSpec {
 			Quick: []HarnessSpec{
 				{Pkg: pkgGrpcutil, Func: "H18a_q", Unwind: 16, Note: "PercentEncodeMessage on every byte string of length <=3 (all 256 byte values)"},
 				{Pkg: pkgGrpcutil, Func: "H18b_q", Unwind: 12, Note: "header list -> gRPC metadata -> header list: one header, key from {x-a, X-A-Bin, x-b-bin, X-C}, 1..2 values (ASCII or with a 0xff byte)"},
+				{Pkg: pkgGrpcutil, Func: "H18f_q", Unwind: 12, Note: "ConvertProtoHeaderToMetadata on two header entries with names from {x-a, X-A, x-b-bin, X-B-Bin} (same name twice, names differing in case, binary keys): every value reaches the metadata, in order, decoded exactly once"},
+				{Pkg: pkgGrpcutil, Func: "H18g_q", Unwind: 12, Note: "the same through the client side: AppendToOutgoingContext, then grpc-go's metadata.FromOutgoingContext (executed from its SSA)"},
 				{Pkg: pkgInternal, Func: "H18c_q", Unwind: 60, Note: "ConvertProtoToConnectError then ConvertConnectToProtoError (real connect-go Error/ErrorDetail code): codes 1..16, empty / non-empty message, 0..2 details of two types with 0..2 value bytes"},
 				{Pkg: pkgInternal, Func: "H18e_q", Unwind: 12, Note: "StrictProtoCodec / StrictJSONCodec: Marshal, MarshalAppend, MarshalStable followed by Unmarshal on an arbitrary message; any 1..3 unknown-field bytes are rejected"},
 			},
